@@ -18,6 +18,31 @@ ASSUMPTIONS = [
 ]
 
 
+# projects whose result is known to depend on the schedule (known findings): the real CLI run has
+# a schedule of its own, so they are no conformance subjects
+SCHEDULE_DEPENDENT = ("selfprod", "two:glob_vs_output_conflict", "chain:edit-outputs")
+
+
+def run_conform(spec):
+    from .. import conform
+
+    acc = Acc()
+    fam, knobs = spec["proj"]
+    knobs = dict(knobs)
+    edits = knobs.pop("__edits__", None)
+    builds = [build_files((fam, knobs))]
+    if edits:
+        builds.append({op[1]: (op[2] if op[0] == "write" else None) for op in edits})
+    diffs, n = conform.compare(builds, tag="cf")
+    acc.count("conformance_builds", n)
+    acc.validated += n
+    acc.extra["conformance"] = [{"project": spec["conform"], "builds": n, "differences": len(diffs)}]
+    if diffs:
+        acc.violation(f"C02|conformance|{spec['conform']}",
+                      {"why": "the closed system and the real `stepup build` disagree", "diffs": diffs}, None)
+    return acc
+
+
 def project_list(tier):
     out = []
     out.append(("chain", ("f_chain", {})))
@@ -89,6 +114,10 @@ def jobs(tier, seed):
     from . import c08
 
     out = [{"texts": True, "ia": ia, "tier": tier} for ia in range(len(c08.declarations()))]
+    # conformance replays: the default schedule of the closed system against the real CLI
+    for name, proj in project_list(tier):
+        if name not in SCHEDULE_DEPENDENT:
+            out.append({"conform": name, "proj": proj})
     for name, proj in project_list(tier):
         for cfg in configs(name, tier):
             spec = {"name": name, "proj": proj, "cfg": cfg, "bound": bound_for(name, tier)}
@@ -132,6 +161,8 @@ def run_texts(spec):
 def run_job(spec):
     if spec.get("texts"):
         return run_texts(spec)
+    if spec.get("conform"):
+        return run_conform(spec)
     acc = Acc()
     name = spec["name"]
     oc = acc.extra.setdefault("oc", {})
@@ -239,7 +270,8 @@ def finish(total, tier, seed):
 
 
 def coverage_extra(total, tier):
-    return {"bound": total.extra.get("bound", {}), "projects": len(total.extra.get("bound", {}))}
+    return {"bound": total.extra.get("bound", {}), "projects": len(total.extra.get("bound", {})),
+            "conformance": sorted(total.extra.get("conformance", []), key=lambda d: d["project"])}
 
 
 def replay(doc):
